@@ -246,6 +246,7 @@ func TestMergeC08C09(t *testing.T) {
 		childGot := make([][]mocrelay.ClientMsg, n)
 		// REQ model
 		inst := map[string]*reqInstance{}
+		var allInsts []*reqInstance
 		owesEOSE := make([]map[string]bool, n) // child i received REQ s (current instance) and has not sent EOSE
 		everReq := make([]map[string]bool, n)  // child i ever received a REQ for s
 		owesOK := make([][]string, n)          // event ids child i still has to answer (in order received)
@@ -294,7 +295,9 @@ func TestMergeC08C09(t *testing.T) {
 			bcast, nextChild = m, 0
 			switch x := m.(type) {
 			case *mocrelay.ClientReqMsg:
-				inst[x.SubscriptionID] = &reqInstance{filters: x.ReqFilters, eose: make([]bool, n), seen: map[string]bool{}, emitters: map[int]bool{}}
+				ni := &reqInstance{filters: x.ReqFilters, eose: make([]bool, n), seen: map[string]bool{}, emitters: map[int]bool{}}
+				inst[x.SubscriptionID] = ni
+				allInsts = append(allInsts, ni)
 			case *mocrelay.ClientCloseMsg:
 				if in := inst[x.SubscriptionID]; in != nil {
 					in.closed = true
@@ -529,28 +532,43 @@ func TestMergeC08C09(t *testing.T) {
 			in := inst[s]
 			return in == nil || in.complete
 		}
-		steps := rapid.IntRange(6, 45).Draw(t, "steps")
+		steps := rapid.IntRange(6, 60).Draw(t, "steps")
 		for k := 0; k < steps; k++ {
 			lab := fmt.Sprintf("%d.", k)
 			// enabled actions
 			var acts []string
+			rep := func(a string, k int) {
+				for j := 0; j < k; j++ {
+					acts = append(acts, a)
+				}
+			}
+			// the focused property's traffic gets more weight
+			wReq, wEv := 2, 2
+			if os.Getenv("VERIF_FOCUS") == "C08" {
+				wReq, wEv = 4, 1
+			} else if os.Getenv("VERIF_FOCUS") == "C09" {
+				wReq, wEv = 1, 4
+			}
 			if nextChild < n {
-				acts = append(acts, "recv", "recv", "recv")
+				rep("recv", 4)
 			} else {
-				acts = append(acts, "REQ", "REQ", "CLOSE", "EVENT", "EVENT", "COUNT")
+				rep("REQ", wReq)
+				rep("CLOSE", 1)
+				rep("EVENT", wEv)
+				rep("COUNT", (wEv+1)/2)
 			}
 			for i := 0; i < n; i++ {
 				if len(everReq[i]) > 0 {
-					acts = append(acts, fmt.Sprintf("ev%d", i), fmt.Sprintf("ev%d", i))
+					rep(fmt.Sprintf("ev%d", i), 1+wReq)
 				}
 				if len(owesEOSE[i]) > 0 {
-					acts = append(acts, fmt.Sprintf("eose%d", i), fmt.Sprintf("eose%d", i))
+					rep(fmt.Sprintf("eose%d", i), wReq)
 				}
 				if len(owesOK[i]) > 0 {
-					acts = append(acts, fmt.Sprintf("ok%d", i), fmt.Sprintf("ok%d", i))
+					rep(fmt.Sprintf("ok%d", i), wEv)
 				}
 				if len(owesCount[i]) > 0 {
-					acts = append(acts, fmt.Sprintf("cnt%d", i))
+					rep(fmt.Sprintf("cnt%d", i), (wEv+1)/2)
 				}
 			}
 			acts = append(acts, "notice")
@@ -671,7 +689,7 @@ func TestMergeC08C09(t *testing.T) {
 		if err := rig.close(); err != nil {
 			stalled(err)
 		}
-		for _, in := range inst {
+		for _, in := range allInsts {
 			if in.complete && in.dropWorthy && len(in.emitters) >= 2 && in.liveAfter {
 				c08nontriv = true
 			}
@@ -766,5 +784,385 @@ func TestMergeRegressSameIDInFlight(t *testing.T) {
 	}
 	if oks != 2 {
 		hx.Fail(t, ev.Failure{Property: "C09", Signature: "ok-count-at-quiescence", Clause: "regression: two EVENTs with the same id in flight get two OKs", Observed: fmt.Sprint(oks), Expected: "2"})
+	}
+}
+
+// ---- free-running mode --------------------------------------------------------------------------
+
+type frChild struct {
+	idx     int
+	stored  map[string][]*mocrelay.Event // per sub id: events sent before EOSE
+	live    map[string][]*mocrelay.Event // per sub id: events sent after EOSE
+	verdict map[string]bool              // per event id
+	counts  map[string]uint64            // per count sub id
+}
+
+func (c *frChild) ServeNostr(ctx context.Context, send chan<- mocrelay.ServerMsg, recv <-chan mocrelay.ClientMsg) error {
+	out := func(m mocrelay.ServerMsg) bool {
+		select {
+		case send <- m:
+			return true
+		case <-ctx.Done():
+			return false
+		}
+	}
+	for {
+		select {
+		case <-ctx.Done():
+			return ctx.Err()
+		case m, ok := <-recv:
+			if !ok {
+				return mocrelay.ErrRecvClosed
+			}
+			switch x := m.(type) {
+			case *mocrelay.ClientReqMsg:
+				for _, e := range c.stored[x.SubscriptionID] {
+					if !out(mocrelay.NewServerEventMsg(x.SubscriptionID, e)) {
+						return ctx.Err()
+					}
+				}
+				if !out(mocrelay.NewServerEOSEMsg(x.SubscriptionID)) {
+					return ctx.Err()
+				}
+				for _, e := range c.live[x.SubscriptionID] {
+					if !out(mocrelay.NewServerEventMsg(x.SubscriptionID, e)) {
+						return ctx.Err()
+					}
+				}
+			case *mocrelay.ClientEventMsg:
+				acc := c.verdict[x.Event.ID]
+				if !out(mocrelay.NewServerOKMsg(x.Event.ID, acc, "", fmt.Sprintf("child%d", c.idx))) {
+					return ctx.Err()
+				}
+			case *mocrelay.ClientCountMsg:
+				if !out(mocrelay.NewServerCountMsg(x.SubscriptionID, c.counts[x.SubscriptionID], nil)) {
+					return ctx.Err()
+				}
+			}
+		}
+	}
+}
+
+// TestMergeFreeRunning: children and client run as goroutines with generated
+// scripts; the invariants of C08 / C09 are checked on the recorded client-side stream.
+func TestMergeFreeRunning(t *testing.T) {
+	c08 := ev.For("C08").SetRule(c08Rule)
+	c09 := ev.For("C09").SetRule(c09Rule)
+	rapid.Check(t, func(t *rapid.T) {
+		n := rapid.IntRange(2, 4).Draw(t, "children")
+		authors := gen.Pubkeys(2)
+		var pool []*mocrelay.Event
+		for i := 0; i < 10; i++ {
+			e := &mocrelay.Event{Pubkey: authors[i%2], Kind: []int64{1, 1, 1, 7}[i%4], CreatedAt: int64(100 + rapid.IntRange(0, 5).Draw(t, fmt.Sprintf("pool%d", i))), Content: fmt.Sprint(i)}
+			gen.Seal(e)
+			pool = append(pool, e)
+		}
+		var submit []*mocrelay.Event
+		for i := 0; i < 3; i++ {
+			e := &mocrelay.Event{Pubkey: authors[0], Kind: 1, CreatedAt: 50, Content: "s" + fmt.Sprint(i)}
+			gen.Seal(e)
+			submit = append(submit, e)
+		}
+		nsubs := rapid.IntRange(1, 4).Draw(t, "subs")
+		subFilters := map[string][]*mocrelay.ReqFilter{}
+		var subIDs []string
+		for i := 0; i < nsubs; i++ {
+			s := fmt.Sprintf("s%d", i)
+			subIDs = append(subIDs, s)
+			f := &mocrelay.ReqFilter{}
+			if rapid.IntRange(0, 2).Draw(t, s+".kinds") != 0 {
+				f.Kinds = []int64{1}
+			}
+			if rapid.Bool().Draw(t, s+".limit?") {
+				f.Limit = gen.Ptr(int64(rapid.IntRange(0, 4).Draw(t, s+".limit")))
+			}
+			subFilters[s] = []*mocrelay.ReqFilter{f}
+		}
+		children := make([]*frChild, n)
+		hs := make([]mocrelay.Handler, n)
+		liveSet := map[string]map[*mocrelay.Event]bool{}
+		for i := range children {
+			c := &frChild{idx: i, stored: map[string][]*mocrelay.Event{}, live: map[string][]*mocrelay.Event{}, verdict: map[string]bool{}, counts: map[string]uint64{}}
+			for _, s := range subIDs {
+				k := rapid.IntRange(0, 6).Draw(t, fmt.Sprintf("c%d.%s.nstored", i, s))
+				var evs []*mocrelay.Event
+				for j := 0; j < k; j++ {
+					evs = append(evs, rapid.SampledFrom(pool).Draw(t, fmt.Sprintf("c%d.%s.st%d", i, s, j)))
+				}
+				if rapid.IntRange(0, 3).Draw(t, fmt.Sprintf("c%d.%s.sorted", i, s)) != 0 {
+					sortDesc(evs)
+				}
+				c.stored[s] = evs
+				kl := rapid.IntRange(0, 3).Draw(t, fmt.Sprintf("c%d.%s.nlive", i, s))
+				for j := 0; j < kl; j++ {
+					e := &mocrelay.Event{Pubkey: authors[0], Kind: 1, CreatedAt: 200, Content: fmt.Sprintf("live-%d-%s-%d", i, s, j)}
+					gen.Seal(e)
+					c.live[s] = append(c.live[s], e)
+					if liveSet[s] == nil {
+						liveSet[s] = map[*mocrelay.Event]bool{}
+					}
+					liveSet[s][e] = true
+				}
+			}
+			for _, e := range submit {
+				c.verdict[e.ID] = rapid.IntRange(0, 3).Draw(t, fmt.Sprintf("c%d.v%s", i, e.Content)) != 0
+			}
+			for _, s := range []string{"x", "y"} {
+				c.counts[s] = uint64(rapid.IntRange(0, 9).Draw(t, fmt.Sprintf("c%d.cnt%s", i, s)))
+			}
+			children[i] = c
+			hs[i] = c
+		}
+		// client script
+		var script []mocrelay.ClientMsg
+		var briefs []any
+		reqd := map[string]bool{}
+		closed := map[string]bool{}
+		nEvents := map[string]int{}
+		nCounts := map[string]int{}
+		steps := rapid.IntRange(2, 25).Draw(t, "steps")
+		for k := 0; k < steps; k++ {
+			lab := fmt.Sprintf("%d.", k)
+			switch rapid.SampledFrom([]string{"REQ", "REQ", "EVENT", "EVENT", "EVENT", "COUNT", "CLOSE"}).Draw(t, lab+"op") {
+			case "REQ":
+				var cands []string
+				for _, s := range subIDs {
+					if !reqd[s] {
+						cands = append(cands, s)
+					}
+				}
+				if len(cands) == 0 {
+					continue
+				}
+				s := rapid.SampledFrom(cands).Draw(t, lab+"sub")
+				reqd[s] = true
+				script = append(script, &mocrelay.ClientReqMsg{SubscriptionID: s, ReqFilters: subFilters[s]})
+			case "EVENT":
+				e := rapid.SampledFrom(submit).Draw(t, lab+"ev")
+				nEvents[e.ID]++
+				script = append(script, &mocrelay.ClientEventMsg{Event: e})
+			case "COUNT":
+				s := rapid.SampledFrom([]string{"x", "y"}).Draw(t, lab+"sub")
+				nCounts[s]++
+				script = append(script, &mocrelay.ClientCountMsg{SubscriptionID: s, ReqFilters: []*mocrelay.ReqFilter{{}}})
+			case "CLOSE":
+				var cands []string
+				for _, s := range subIDs {
+					if reqd[s] && !closed[s] {
+						cands = append(cands, s)
+					}
+				}
+				if len(cands) == 0 {
+					continue
+				}
+				s := rapid.SampledFrom(cands).Draw(t, lab+"sub")
+				closed[s] = true
+				script = append(script, &mocrelay.ClientCloseMsg{SubscriptionID: s})
+			}
+		}
+		for _, m := range script {
+			briefs = append(briefs, briefClient(m))
+		}
+		desc := map[string]any{"children": n, "script": briefs, "mode": "free-running"}
+		h := mocrelay.NewMergeHandler(hs...)
+		ctx, cancel := context.WithCancel(context.Background())
+		defer cancel()
+		recv := make(chan mocrelay.ClientMsg)
+		send := make(chan mocrelay.ServerMsg)
+		ret := make(chan error, 1)
+		go func() { ret <- h.ServeNostr(ctx, send, recv) }()
+		var stream []mocrelay.ServerMsg
+		expectOK, expectCount, expectEOSE := 0, 0, 0
+		for _, k := range nEvents {
+			expectOK += k
+		}
+		for _, k := range nCounts {
+			expectCount += k
+		}
+		for s := range reqd {
+			if !closed[s] {
+				expectEOSE++
+			}
+		}
+		gotOK, gotCount, gotEOSE := 0, 0, map[string]int{}
+		i := 0
+		deadline := time.After(stepTimeout)
+		settle := (<-chan time.Time)(nil)
+	loop:
+		for {
+			var in chan mocrelay.ClientMsg
+			var next mocrelay.ClientMsg
+			if i < len(script) {
+				in, next = recv, script[i]
+			}
+			eoseOpen := 0
+			for s := range reqd {
+				if !closed[s] && gotEOSE[s] > 0 {
+					eoseOpen++
+				}
+			}
+			if i == len(script) && gotOK >= expectOK && gotCount >= expectCount && eoseOpen >= expectEOSE && settle == nil {
+				settle = time.After(3 * time.Millisecond)
+			}
+			select {
+			case in <- next:
+				i++
+			case m := <-send:
+				stream = append(stream, m)
+				switch x := m.(type) {
+				case *mocrelay.ServerOKMsg:
+					gotOK++
+				case *mocrelay.ServerCountMsg:
+					gotCount++
+				case *mocrelay.ServerEOSEMsg:
+					gotEOSE[x.SubscriptionID]++
+				}
+				if settle != nil {
+					settle = time.After(3 * time.Millisecond)
+				}
+			case <-settle:
+				break loop
+			case <-deadline:
+				break loop
+			}
+		}
+		fail := func(prop, sig, clause, obs string) {
+			if mergeFocus(prop) {
+				hx.Fail(t, ev.Failure{Property: prop, Signature: sig, Clause: clause, Case: map[string]any{"case": desc, "stream": briefServers(stream)}, Observed: obs})
+			}
+		}
+		// C09
+		okByID := map[string][]*mocrelay.ServerOKMsg{}
+		cntBySub := map[string][]*mocrelay.ServerCountMsg{}
+		for _, m := range stream {
+			switch x := m.(type) {
+			case *mocrelay.ServerOKMsg:
+				okByID[x.EventID] = append(okByID[x.EventID], x)
+			case *mocrelay.ServerCountMsg:
+				cntBySub[x.SubscriptionID] = append(cntBySub[x.SubscriptionID], x)
+			}
+		}
+		for _, e := range submit {
+			if len(okByID[e.ID]) != nEvents[e.ID] {
+				fail("C09", "ok-count-at-quiescence", "every EVENT is answered by exactly one OK carrying its id", fmt.Sprintf("id %s: %d EVENTs, %d OKs", gen.Short(e.ID), nEvents[e.ID], len(okByID[e.ID])))
+			}
+			all := true
+			first := ""
+			for _, c := range children {
+				if !c.verdict[e.ID] {
+					all = false
+					if first == "" {
+						first = fmt.Sprintf("child%d", c.idx)
+					}
+				}
+			}
+			for _, ok := range okByID[e.ID] {
+				if ok.Accepted != all {
+					fail("C09", "ok-verdict", "the aggregated OK accepts iff every child accepted", hx.JSON(briefServer(ok)))
+				}
+				if !all && !strings.HasPrefix(ok.Message(), "child") {
+					fail("C09", "ok-reason", "a rejection's text begins with a rejecting child's reason", ok.Message())
+				}
+			}
+		}
+		for _, s := range []string{"x", "y"} {
+			if len(cntBySub[s]) != nCounts[s] {
+				fail("C09", "count-at-quiescence", "every COUNT is answered by exactly one COUNT reply", fmt.Sprintf("sub %s: %d COUNTs, %d replies", s, nCounts[s], len(cntBySub[s])))
+			}
+			var mx uint64
+			for _, c := range children {
+				if c.counts[s] > mx {
+					mx = c.counts[s]
+				}
+			}
+			for _, r := range cntBySub[s] {
+				if r.Count != mx {
+					fail("C09", "count-value", "the COUNT reply carries the maximum of the children's counts", fmt.Sprintf("%d, want %d", r.Count, mx))
+				}
+			}
+		}
+		// C08
+		nontrivial := false
+		for s := range reqd {
+			fs := subFilters[s]
+			eose := 0
+			seen := map[string]bool{}
+			var lastTs int64
+			hasLast := false
+			fwd := 0
+			dropWorthy := false
+			for _, m := range stream {
+				switch x := m.(type) {
+				case *mocrelay.ServerEOSEMsg:
+					if x.SubscriptionID == s {
+						eose++
+					}
+				case *mocrelay.ServerEventMsg:
+					if x.SubscriptionID != s {
+						continue
+					}
+					if eose > 0 {
+						continue
+					}
+					if closed[s] && liveSet[s][x.Event] {
+						continue // after the client's CLOSE nothing is claimed
+					}
+					switch {
+					case !gen.MatchAny(x.Event, fs) && !closed[s]:
+						fail("C08", "pre-eose-nonmatching", "before the merged EOSE the forwarded events all match the REQ's filters", hx.JSON(briefServer(m)))
+					case seen[x.Event.ID] && !closed[s]:
+						fail("C08", "pre-eose-duplicate", "before the merged EOSE the forwarded events are pairwise distinct", hx.JSON(briefServer(m)))
+					case hasLast && x.Event.CreatedAt > lastTs && !closed[s]:
+						fail("C08", "pre-eose-out-of-order", "before the merged EOSE the forwarded events arrive in non-increasing created_at order", hx.JSON(briefServer(m)))
+					case fs[0].Limit != nil && int64(fwd) >= *fs[0].Limit && !closed[s]:
+						fail("C08", "pre-eose-over-limit", "for a single filter with limit n at most n events are forwarded before the merged EOSE", hx.JSON(briefServer(m)))
+					}
+					seen[x.Event.ID] = true
+					lastTs, hasLast = x.Event.CreatedAt, true
+					fwd++
+				}
+			}
+			if eose > 1 || (eose == 0 && !closed[s]) {
+				fail("C08", "merged-eose-count", "the client receives exactly one EOSE per REQ (none or one if it closed the subscription meanwhile)", fmt.Sprintf("sub %s: %d EOSE", s, eose))
+			}
+			total := 0
+			for _, c := range children {
+				total += len(c.stored[s])
+				for _, e := range c.stored[s] {
+					if !gen.MatchAny(e, fs) {
+						dropWorthy = true
+					}
+				}
+			}
+			if total > fwd {
+				dropWorthy = true
+			}
+			if eose == 1 && dropWorthy && len(liveSet[s]) > 0 {
+				nontrivial = true
+			}
+		}
+		cancel()
+		select {
+		case <-ret:
+		case <-time.After(stepTimeout):
+			fail("C08", "stalled", "the merged handler returns after cancel", "ServeNostr did not return")
+		}
+		key := hx.JSON(desc)
+		if mergeFocus("C08") {
+			c08.Label("mode:free-running")
+			c08.Case(nontrivial, key, func() any { return desc })
+		}
+		if mergeFocus("C09") {
+			c09.Label("mode:free-running")
+			c09.Case(expectOK >= 2, key, func() any { return desc })
+		}
+	})
+}
+
+func sortDesc(evs []*mocrelay.Event) {
+	for i := 1; i < len(evs); i++ {
+		for j := i; j > 0 && evs[j-1].CreatedAt < evs[j].CreatedAt; j-- {
+			evs[j-1], evs[j] = evs[j], evs[j-1]
+		}
 	}
 }
